@@ -1479,6 +1479,16 @@ func (l *Lowerer) specType(e ast.Expr) types.Type {
 				return tn.Type()
 			}
 		}
+		// outside any function scope (ghost declarations): a package imported by the verified packages
+		for _, pk := range l.p.pkgs {
+			for _, imp := range pk.Types.Imports() {
+				if imp.Name() == id.Name {
+					if tn, ok := imp.Scope().Lookup(x.Sel.Name).(*types.TypeName); ok {
+						return tn.Type()
+					}
+				}
+			}
+		}
 	case *ast.ParenExpr:
 		return l.specType(x.X)
 	}
